@@ -19,6 +19,7 @@
 void *gh_sched_mx;                                            /* logical: address of this->_mx                                   */
 #define SCH_LOCKED   (gh_lock_depth == 1 && gh_lock_held == gh_sched_mx)
 #define SCH_UNLOCKED (gh_lock_depth == 0)
+#define SCH_HOLDS    (gh_lock_depth > 0 && gh_lock_held == gh_sched_mx)          /* loop invariants: the lock words are not assigned inside the loops */
 cv_s64 gh_t_tp; void *gh_t_own; cv_i8 *gh_t_id; cv_i1 gh_t_in0;   /* logical: the tracked entry at function entry                    */
 cv_i64 gh_n0;                                                 /* logical: size at entry                                           */
 /* gh_mv_tp / gh_mv_own / gh_mv_id (lib/model_promise.c): the entry the most recent promise was moved out of */
@@ -39,9 +40,15 @@ unsigned gh_n_notify;                                         /* condition_varia
 #ifdef CV_HAS_vec_find_pred
 #define VEC_FIND_PRED(cl, x) vec_find_pred((void *)(cl), x)
 #endif
+#ifndef C12_CONCRETE_VEC
 #define PR_CONTAINER_RECORD(src) do { if (__CPROVER_same_object(src, &vm)) { ITEM *pr_it = (ITEM *)((cv_i8 *)(src) - __builtin_offsetof(ITEM, _p)); \
       gh_mv_tp = IT_TP(pr_it); gh_mv_own = PR_OWN(src); gh_mv_id = IT_ID(pr_it); } } while (0)
+#endif
+#ifdef C12_CONCRETE_VEC
+#include "model_vec_heap_concrete.c"
+#else
 #include "model_vec_heap.c"
+#endif
 #include "model_promise.c"
 #ifdef CV_HAS_var_from_promise
 #include "model_variant_expired.c"
@@ -58,9 +65,8 @@ void sp_dtor(SP *this_) { if (this_->_count_flag != 0) gh_sp_flushed++; }
 #endif
 #ifdef C12_EXC_PRIMS
 /* libstdc++ make_exception_ptr: allocate, record the dynamic type in the exception header (same place as __cxa_throw in rt_core.c), wrap */
-cv_i8 *__cxa_init_primary_exception(cv_i8 *o, struct S_class_std__type_info *ti, void (*d)(cv_i8 *)) { *(void **)(o - CV_EXC_HDR) = (void *)ti; return o; }
+struct S_struct___cxxabiv1____cxa_refcounted_exception *__cxa_init_primary_exception(cv_i8 *o, struct S_class_std__type_info *ti, void (*d)(cv_i8 *)) { *(void **)(o - CV_EXC_HDR) = (void *)ti; return (struct S_struct___cxxabiv1____cxa_refcounted_exception *)o; }
 void _ZNSt15__exception_ptr13exception_ptrC1EPv(struct S_class_std____exception_ptr__exception_ptr *this_, cv_i8 *o) { this_->_M_exception_object = o; }
-void _ZNSt9exceptionD2Ev(struct S_class_std__exception *this_) { }
 #endif
 void _ZSt20__throw_system_errori(cv_i32 e) { __CPROVER_assert(0, "std::mutex::lock failed (system_error)"); __CPROVER_assume(0); }
 
@@ -104,24 +110,8 @@ __CPROVER_ensures(gh_pr_n_val == __CPROVER_old(gh_pr_n_val) && gh_pr_n_exc == __
 #define RET_IDX(r)  (((cv_i8 *)(r))[8])
 #define RET_TIME(r) (*(cv_s64 *)(r))
 #define RET_OWN(r)  (*(void **)(r))
-#define GE_POST(ret, now) \
-__CPROVER_ensures(cv_exc_pending == 0) \
-__CPROVER_ensures(VEC_WF && VEC_HI_T && vec_n <= gh_n0)                                               /* heap order kept, nothing added */ \
-__CPROVER_ensures(RET_IDX(ret) <= 1) \
-/* a promise is returned => it is live, its entry's time point is <= now (never early) ... */ \
-__CPROVER_ensures(RET_IDX(ret) == 1 ==> (RET_OWN(ret) != 0 && RET_OWN(ret) == gh_mv_own && gh_mv_tp <= (cv_s64)(now))) \
-/* ... and no pending sleep that remains has an earlier time point (deadline order) */ \
-__CPROVER_ensures((RET_IDX(ret) == 1 && vec_tin && IT_OWN(VEC_T) != 0) ==> gh_mv_tp <= IT_TP(VEC_T)) \
-/* a time is returned => it is the earliest time point (max() when nothing is scheduled), it belongs to a pending sleep, and nothing pending is due */ \
-__CPROVER_ensures((RET_IDX(ret) == 0 && vec_n == 0) ==> RET_TIME(ret) == TP_MAX) \
-__CPROVER_ensures((RET_IDX(ret) == 0 && vec_n > 0) ==> (RET_TIME(ret) == IT_TP(VEC_TOP) && IT_OWN(VEC_TOP) != 0 && RET_TIME(ret) > (cv_s64)(now))) \
-__CPROVER_ensures((RET_IDX(ret) == 0 && vec_tin) ==> (RET_TIME(ret) <= IT_TP(VEC_T) && IT_TP(VEC_T) > (cv_s64)(now))) \
-/* every pending sleep: still pending and unchanged, XOR it is the one returned - and then it was due (each exactly once) */ \
-__CPROVER_ensures(TRK_LIVE0 ==> (TRK_SAME || (!vec_tin && RET_IDX(ret) == 1 && RET_OWN(ret) == gh_t_own && gh_t_tp <= (cv_s64)(now)))) \
-__CPROVER_ensures(NO_COMPLETION)                                                                          /* nothing is resolved or dropped here */
-
 #define GE_LOOP_INV \
-  (cv_exc_pending == 0 && SCH_LOCKED && VEC_WF && VEC_HI_T && vec_n <= gh_n0 && (TRK_LIVE0 ==> TRK_SAME))
+  (cv_exc_pending == 0 && SCH_HOLDS && VEC_WF && VEC_HI_T && vec_n <= gh_n0 && (TRK_LIVE0 ==> TRK_SAME))
 #define CV_LOOP_sch_get_expired_lk_0 \
   __CPROVER_assigns(CV_LOOP_LOCALS_sch_get_expired_lk_0, MODEL_ASSIGNS, __CPROVER_object_whole(agg_result)) \
   __CPROVER_loop_invariant(GE_LOOP_INV && now__mem.__d.__r == now_coerce) \
@@ -132,21 +122,21 @@ void sch_get_expired_lk(EXPIRED *ret, SCHED *this_, cv_i64 now)
 __CPROVER_requires(SCH_PRE(this_) && SCH_LOCKED && __CPROVER_is_fresh(ret, sizeof(*ret)))
 __CPROVER_assigns(MODEL_ASSIGNS, __CPROVER_object_whole(ret))
 __CPROVER_ensures(SCH_LOCKED)
-GE_POST(ret, now)
+#include "C12/ge_post.inc"
 ;
 #endif
-#ifdef CV_HAS_sch_get_expired
+#ifdef CV_HAS_sch_get_expired_U
 void sch_get_expired(EXPIRED *ret, SCHED *this_, cv_i64 now)
 __CPROVER_requires(SCH_PRE(this_) && SCH_UNLOCKED && __CPROVER_is_fresh(ret, sizeof(*ret)))
 __CPROVER_assigns(MODEL_ASSIGNS, LOCK_ASSIGNS, __CPROVER_object_whole(ret))
 __CPROVER_ensures(SCH_UNLOCKED && gh_n_lock == __CPROVER_old(gh_n_lock) + 1)                              /* one critical section, lock released */
-GE_POST(ret, now)
+#include "C12/ge_post.inc"
 ;
 #endif
 
 /* ------------------------------------------------------------------ remove(id) */
 #define RM_LOOP_INV \
-  (cv_exc_pending == 0 && SCH_LOCKED && VEC_WF && VEC_HI_T && vec_n <= gh_n0 && (TRK_LIVE0 ==> TRK_SAME) && gh_n_lock == __CPROVER_loop_entry(gh_n_lock))
+  (cv_exc_pending == 0 && SCH_HOLDS && VEC_WF && VEC_HI_T && vec_n <= gh_n0 && (TRK_LIVE0 ==> TRK_SAME))
 #define CV_LOOP_sch_remove_0 \
   __CPROVER_assigns(CV_LOOP_LOCALS_sch_remove_0, MODEL_ASSIGNS, __CPROVER_object_whole(agg_result)) \
   __CPROVER_loop_invariant(RM_LOOP_INV) \
@@ -219,7 +209,7 @@ void sch_cancel_e(SPB *ret, SCHED *this_, cv_i8 *id, EPTR *e) {
 void sch_cancel(SPB *ret, SCHED *this_, cv_i8 *id)
 __CPROVER_requires(cv_exc_pending == 0 && __CPROVER_is_fresh(this_, sizeof(*this_)) && __CPROVER_is_fresh(ret, sizeof(*ret)))
 __CPROVER_requires(gh_fw_calls == 0 && gh_fw_value <= 1 && (gh_fw_cf == 0 || gh_fw_cf == 2))
-__CPROVER_assigns(__CPROVER_object_whole(ret), gh_fw_calls, gh_fw_this, gh_fw_id, gh_fw_exc_type, gh_allocs, gh_frees)
+__CPROVER_assigns(__CPROVER_object_whole(ret), gh_fw_calls, gh_fw_this, gh_fw_id, gh_fw_exc_type, gh_allocs, gh_frees, gh_ep_addref, gh_ep_release)
 __CPROVER_ensures(cv_exc_pending == 0)
 __CPROVER_ensures(gh_fw_calls == 1 && gh_fw_this == this_ && gh_fw_id == id)
 __CPROVER_ensures(gh_fw_exc_type == (void *)AWAIT_CANCELED_TI)                                              /* the default exception is await_canceled_exception */
@@ -232,39 +222,53 @@ __CPROVER_ensures(ret->value == gh_fw_value && ret->base_suspend_point._count_fl
 unsigned gh_fw_calls; SCHED *gh_fw_this; cv_i8 *gh_fw_id; void *gh_fw_own; cv_s64 gh_fw_tp;
 void sch_schedule(SCHED *this_, cv_i8 *id, PROM *p, cv_i64 tp) {
   gh_fw_calls++; gh_fw_this = this_; gh_fw_id = id; gh_fw_tp = (cv_s64)tp; gh_fw_own = PR_OWN(p);
-  if (nondet_bool()) PR_OWN(p) = 0; }                                       /* schedule() moves the promise into its entry */
+  PR_OWN(p) = 0; }                                                          /* schedule() moves the promise into its entry (its contract: PR_OWN(p) == 0 afterwards) */
 void sch_sleep_until(FUT *ret, SCHED *this_, cv_i64 tp, cv_i8 *id)
 __CPROVER_requires(cv_exc_pending == 0 && __CPROVER_is_fresh(this_, sizeof(*this_)) && __CPROVER_is_fresh(ret, sizeof(*ret)) && gh_fw_calls == 0)
 __CPROVER_assigns(__CPROVER_object_whole(ret), gh_fw_calls, gh_fw_this, gh_fw_id, gh_fw_own, gh_fw_tp, PR_MODEL_ASSIGNS)
 __CPROVER_ensures(cv_exc_pending == 0)
 __CPROVER_ensures(gh_fw_calls == 1 && gh_fw_this == this_ && gh_fw_id == id && gh_fw_tp == (cv_s64)tp)    /* scheduled exactly once, for exactly (tp, id) */
 __CPROVER_ensures(gh_fw_own == (void *)ret)                                                                /* ... with the promise of the returned future */
+__CPROVER_ensures(gh_pr_n_dropped == __CPROVER_old(gh_pr_n_dropped) && gh_pr_n_val == __CPROVER_old(gh_pr_n_val) && gh_pr_n_exc == __CPROVER_old(gh_pr_n_exc))   /* and the future is left pending */
 ;
 #endif
 
-/* ------------------------------------------------------------------ sleep_for(dur, id) = sleep_until(now() + dur, id) */
+/* ------------------------------------------------------------------ sleep_for(dur, id) = sleep_until(now() + dur, id)
+ * forwarder; std::chrono::system_clock::now() is a ghost clock reading, duration_cast<nanoseconds>(milliseconds) an abstract callee that
+ * records its argument and returns an arbitrary-but-fixed value (unit conversion is libstdc++'s business) */
 #ifdef CV_HAS_sch_sleep_for_U
-unsigned gh_fw_calls; SCHED *gh_fw_this; cv_i8 *gh_fw_id; cv_s64 gh_fw_tp; cv_s64 gh_clock; unsigned gh_clock_reads;
+unsigned gh_fw_calls; SCHED *gh_fw_this; cv_i8 *gh_fw_id; cv_s64 gh_fw_tp; cv_s64 gh_clock; unsigned gh_clock_reads; cv_s64 gh_cast_in, gh_cast_out; unsigned gh_cast_calls;
 cv_i64 _ZNSt6chrono3_V212system_clock3nowEv(void) { gh_clock_reads++; return (cv_i64)gh_clock; }
+cv_i64 chr_cast_ms_ns(DUR_MS *d) { gh_cast_calls++; gh_cast_in = (cv_s64)d->__r; return (cv_i64)gh_cast_out; }
 void sch_sleep_until(FUT *ret, SCHED *this_, cv_i64 tp, cv_i8 *id) { gh_fw_calls++; gh_fw_this = this_; gh_fw_id = id; gh_fw_tp = (cv_s64)tp; }
 void sch_sleep_for(FUT *ret, SCHED *this_, cv_i64 dur_ms, cv_i8 *id)
-__CPROVER_requires(cv_exc_pending == 0 && __CPROVER_is_fresh(this_, sizeof(*this_)) && __CPROVER_is_fresh(ret, sizeof(*ret)) && gh_fw_calls == 0)
-__CPROVER_requires((cv_s64)dur_ms >= -(1L << 40) && (cv_s64)dur_ms <= (1L << 40) && gh_clock >= 0 && gh_clock < (1L << 62))      /* no arithmetic overflow of the time point */
-__CPROVER_assigns(gh_fw_calls, gh_fw_this, gh_fw_id, gh_fw_tp, gh_clock_reads)
+__CPROVER_requires(cv_exc_pending == 0 && __CPROVER_is_fresh(this_, sizeof(*this_)) && __CPROVER_is_fresh(ret, sizeof(*ret)) && gh_fw_calls == 0 && gh_clock_reads == 0 && gh_cast_calls == 0)
+__CPROVER_assigns(gh_fw_calls, gh_fw_this, gh_fw_id, gh_fw_tp, gh_clock_reads, gh_cast_calls, gh_cast_in)
 __CPROVER_ensures(cv_exc_pending == 0)
-__CPROVER_ensures(gh_fw_calls == 1 && gh_fw_this == this_ && gh_fw_id == id)
-__CPROVER_ensures(gh_fw_tp == gh_clock + (cv_s64)dur_ms * 1000000L)                                        /* time point = clock reading at the call + duration */
+__CPROVER_ensures(gh_fw_calls == 1 && gh_fw_this == this_ && gh_fw_id == id)                               /* exactly one sleep_until with the same id */
+__CPROVER_ensures(gh_clock_reads == 1 && gh_cast_calls == 1 && gh_cast_in == (cv_s64)dur_ms)
+__CPROVER_ensures(gh_fw_tp == (cv_s64)((cv_i64)gh_clock + (cv_i64)gh_cast_out))                            /* time point = ONE clock reading at the call + the duration (in clock ticks) */
 ;
 #endif
 
 /* ------------------------------------------------------------------ ~scheduler(): a started worker is stopped and joined first; then every pending sleep is cancelled */
 #ifdef CV_HAS_sch_dtor_U
 cv_i1 gh_engaged; unsigned gh_seq, gh_stop_at, gh_wait_at, gh_vecd_at, gh_optd_at;
+#ifdef CV_HAS_opt_has_value
 cv_i1 opt_has_value(OPTGS *o) { return gh_engaged; }
-GLOBST *opt_arrow(OPTGS *o) { __CPROVER_assert(gh_engaged, "optional::operator-> on an engaged optional"); return (GLOBST *)o; }
+#endif
+#ifdef CV_HAS_opt_arrow
+GLOBST *opt_arrow(OPTGS *o) { __CPROVER_assert(gh_engaged, "std::optional::operator-> on an engaged optional"); return (GLOBST *)o; }
+#endif
+#ifdef CV_HAS_opt_dtor
 void opt_dtor(OPTGS *o) { gh_optd_at = ++gh_seq; }
-cv_i1 ss_request_stop(struct S_class_std__stop_source *s) { gh_stop_at = ++gh_seq; return 1; }
+#endif
+#ifdef CV_HAS_ss_request_stop
+cv_i1 ss_request_stop(STOPSRC *s) { gh_stop_at = ++gh_seq; return 1; }
+#endif
+#ifdef CV_HAS_fut_wait
 void fut_wait(FUT *f) { gh_wait_at = ++gh_seq; }
+#endif
 void sch_dtor(SCHED *this_)
 __CPROVER_requires(cv_exc_pending == 0 && __CPROVER_is_fresh(this_, sizeof(*this_)) && gh_sched_mx == (void *)&(this_)->_mx && SCH_UNLOCKED)
 __CPROVER_requires(VEC_WF && TRK_PIN && gh_engaged <= 1 && gh_seq == 0 && gh_stop_at == 0 && gh_wait_at == 0 && gh_optd_at == 0 && gh_vec_dtor == 0 && gh_W == gh_t_own)
